@@ -213,6 +213,9 @@ func build(kind string) *scen {
 		tx("buy(c0,planC,1m)", func(s *scen) chain.TxResult { return s.w.Buy(s.cons[0], s.cons[0], "planc", 1, false, false) })
 		tx("buy/upgrade(c0,planB,1m)", func(s *scen) chain.TxResult { return s.w.Buy(s.cons[0], s.cons[0], "planb", 1, false, false) })
 		tx("pay(p0,c0,A,1)", func(s *scen) chain.TxResult { return s.pay(0, 0, specA, 1) })
+		// a relay whose QoS report is the worst possible: the QoS-adjusted CU that is tracked truncates to 0, so the month
+		// has a tracker entry but no tracked CU
+		tx("pay(p0,c0,A,1,worst-qos)", func(s *scen) chain.TxResult { return s.payQos(0, 0, specA, 1, true) })
 		tx("pay(p0,c0,A,300)", func(s *scen) chain.TxResult { return s.pay(0, 0, specA, 300) })
 		tx("pay(p1,c0,A,2)", func(s *scen) chain.TxResult { return s.pay(1, 0, specA, 2) })
 		tx("pay(p1,c0,B,1000000)", func(s *scen) chain.TxResult { return s.pay(1, 0, specB, 1000000) })
@@ -252,6 +255,10 @@ func build(kind string) *scen {
 // ---------------------------------------------------------------- transactions
 
 func (s *scen) pay(p, c int, spec string, cu uint64) chain.TxResult {
+	return s.payQos(p, c, spec, cu, false)
+}
+
+func (s *scen) payQos(p, c int, spec string, cu uint64, worstQos bool) chain.TxResult {
 	w := s.w
 	ci := uint64(0)
 	if spec == specB {
@@ -261,6 +268,10 @@ func (s *scen) pay(p, c int, spec string, cu uint64) chain.TxResult {
 	sid := uint64(w.Ctx.BlockHeight())*100000000 + uint64(p)*10000000 + uint64(c)*1000000 + ci*100000 + cu%100000
 	rs := &pairingtypes.RelaySession{Provider: s.provs[p].Addr.String(), ContentHash: []byte("apiname"), SessionId: sid, SpecId: spec,
 		CuSum: cu, Epoch: int64(w.EpochStartNow()), RelayNum: 1, LavaChainId: chain.ChainID}
+	if worstQos {
+		rs.SessionId += 50000
+		rs.QosReport = &pairingtypes.QualityOfServiceReport{Latency: sdk.ZeroDec(), Availability: sdk.ZeroDec(), Sync: sdk.ZeroDec()}
+	}
 	chain.SignRelay(s.cons[c], rs)
 	return w.Tx(func() error {
 		msg := &pairingtypes.MsgRelayPayment{Creator: rs.Provider, Relays: []*pairingtypes.RelaySession{rs}, DescriptionString: "verif"}
@@ -978,7 +989,7 @@ func init() {
 		}
 		run.Set("payout_blocks_checked", payouts)
 		run.Set("exhaustive", exh)
-		run.Set("bound", fmt.Sprintf("all histories up to depth %d/%d/%d over the alphabets of three fixtures: zero (participation fees 0; buy 1m/2m, plan with 201/month, upgrade, 5 payments CU 1/2/300/10^6 to 3 providers on 2 chains, 2 seeded CU values, 2 unstakes), default (default participation fees, contributor on one chain, two consumers subscribed in the same block; upgrade, 5 payments, seed 3e9, unstake), huge (month credit 10^21+7; seeds 1/2/3e9/2^63, payment, upgrade); block ops +1 block, next epoch, ->payout (run to the next CU-tracker timer), +1 day, +31 days; horizon 100 days", plans[1].depth, plans[0].depth, plans[2].depth))
+		run.Set("bound", fmt.Sprintf("all histories up to depth %d/%d/%d over the alphabets of three fixtures: zero (participation fees 0; buy 1m/2m, plan with 201/month, upgrade, 5 payments CU 1/2/300/10^6 to 3 providers on 2 chains, a 1-CU payment with the worst QoS report (tracked CU truncates to 0), 2 seeded CU values, 2 unstakes), default (default participation fees, contributor on one chain, two consumers subscribed in the same block; upgrade, 5 payments, seed 3e9, unstake), huge (month credit 10^21+7; seeds 1/2/3e9/2^63, payment, upgrade); block ops +1 block, next epoch, ->payout (run to the next CU-tracker timer), +1 day, +31 days; horizon 100 days", plans[1].depth, plans[0].depth, plans[2].depth))
 		run.Assume("mock bank/account keeper of testutil/keeper; atomic txs emulated as in baseapp; begin/end blockers in app.go order; providers' bonus pools emptied so that monthly bonus rewards do not mix into the reward records; participation fees are split with the real rewards keeper function (C11 pins only the total share); tracked CU is read with the keeper's GetSubTrackedCuInfo before the block; SEED ops inject tracked CU with the exported keeper method AddTrackedCu (state no transaction can produce quickly)")
 	}})
 }
